@@ -203,3 +203,9 @@ class Duplex(Case):
 
 for c in (Sponge, Sha3, Round, Duplex):
     register(c())
+
+
+# ---- lemmas for the stubs this check relies on (see props.common.Borrowed) ----
+from props.common import Borrowed, REGISTRY
+from props import c01 as _c01
+register(Borrowed(REGISTRY['C01.reverse_byte'], 'C04', 'reverse_byte'))
